@@ -71,3 +71,42 @@ package blobstore
 //@ func (*InMemoryBlobstore).Concatenate
 //@   property C42
 //@   at call golang.org/x/sync/errgroup.WithContext: assert len(sources) == 0
+
+// ---- git blobstore: ranges (C42)
+
+// normalizeRange: the half-open byte interval a (offset, length) request denotes in an object of |total| bytes:
+// a negative offset counts from the end, length 0 means "to the end", a longer length is clipped; it never panics
+//@ func normalizeRange
+//@   property C42
+//@   nopanic
+//@   modifies nothing
+//@   ensures  err == nil ==> 0 <= start && start <= end && end <= total
+//@   ensures  err == nil && offset >= 0 ==> start == offset
+//@   ensures  err == nil && offset < 0 ==> start == total + offset
+//@   ensures  err == nil && length == 0 ==> end == total
+//@   ensures  err == nil && length > 0 && total - start >= length ==> end == start + length
+//@   ensures  err == nil && length > 0 && total - start < length ==> end == total
+// and it does not refuse a request that denotes an interval inside the object
+//@   ensures  total >= 0 && length >= 0 && offset >= 0 && offset <= total && (length == 0 || offset + length >= offset) ==> err == nil
+//@   ensures  total >= 0 && length >= 0 && offset < 0 && total + offset >= 0 && (length == 0 || total + offset + length >= total + offset) ==> err == nil
+
+// ---- git blobstore: the conditional write re-checks the stored version on EVERY attempt (C42)
+
+// currentKeyVersion: event marker (which key was looked up against which head, and what was found)
+//@ func (*GitBlobstore).currentKeyVersion
+//@   property C42
+//@   trusted event marker; the look-up itself goes through the object cache, a Go map
+//@   modifies nothing
+//@   ghost_set verif_ghost.kvChecked = (result1 == nil)
+//@   ghost_set verif_ghost.kvHead = commit
+//@   ghost_set verif_ghost.kvHave = haveCommit
+//@   ghost_set verif_ghost.kvKey = key
+//@   ghost_set verif_ghost.kvVersion = result0
+
+// the commit builder handed to remoteManagedWrite runs once per attempt, each time on the head just fetched: it
+// produces a commit only after looking the key up against THAT head and finding exactly the expected version
+//@ func (*GitBlobstore).checkAndPutWithRemoteSync$1
+//@   property C42
+//@   requires !verif_ghost.kvChecked
+//@   ensures  result1 == nil ==> verif_ghost.kvChecked && verif_ghost.kvHead == remoteHead && verif_ghost.kvHave == ok && verif_ghost.kvKey == key && verif_ghost.kvVersion == expectedVersion
+//@   also_modifies verif_ghost.kvChecked, verif_ghost.kvHead, verif_ghost.kvHave, verif_ghost.kvKey, verif_ghost.kvVersion
